@@ -665,6 +665,8 @@ def load_subscript(it, obj, k):
         raise Undecided(f"GA getitem {k!r}")
     if isinstance(obj, BoundMethod) and obj.name in ("loc", "iloc") and isinstance(obj.obj, DF):
         d = obj.obj
+        if isinstance(k, tuple) and len(k) == 2 and isinstance(k[1], slice) and k[1] == slice(None, None, None) and not (isinstance(k[0], slice) and k[0] == slice(None, None, None)):
+            return load_subscript(it, obj, k[0])           # .loc[rows, :] / .iloc[rows, :]: all columns of those rows
         if isinstance(k, tuple) and len(k) == 2:
             rows, col = k
             if isinstance(rows, slice) and rows == slice(None, None, None):
@@ -683,6 +685,9 @@ def load_subscript(it, obj, k):
                 return d.cols[col].v[rows]
         if obj.name == "loc" and isinstance(k, IndexVals) and k.labels is not None:
             k = list(k.labels)
+        if obj.name == "loc" and isinstance(k, Vec) and k.exact and d.labels is not None and all(isinstance(i, int) and not isinstance(i, bool) for i in k.v) \
+                and not (len(k.v) == d.n and k.v and all(isinstance(i, bool) for i in k.v)):
+            k = list(k.v)                                   # an array of row labels
         if obj.name == "iloc" and isinstance(k, Vec) and k.exact and d.exact and k.v and all(isinstance(i, int) and not isinstance(i, bool) for i in k.v):
             if any(not -d.n <= i < d.n for i in k.v):
                 raise Raised("IndexError", "positional indexers are out-of-bounds")
@@ -1405,6 +1410,14 @@ def vec_method(it, obj, name, args, kw):
         if num(q) and not isinstance(q, bool):
             return f(obj.v, q)
         raise Undecided(f"searchsorted query {q!r}")
+    if name in ("argmax", "argmin", "idxmax", "idxmin") and obj.exact and obj.v and _lits(obj.v) is not None and not args and not kw:
+        lv = _lits(obj.v)
+        pos = lv.index(max(lv) if "max" in name else min(lv))              # first occurrence, as numpy / pandas
+        if name.startswith("idx"):
+            if obj.labels is None:
+                raise Undecided(f"{name} of a Series of unknown labels")
+            return obj.labels[pos]
+        return pos
     if name in ("head", "tail") and obj.exact and (not args or (isinstance(args[0], int) and not isinstance(args[0], bool) and args[0] >= 0)):
         n_ = args[0] if args else 5
         sl = slice(0, n_) if name == "head" else slice(max(len(obj.v) - n_, 0), None)
@@ -1959,7 +1972,11 @@ def ext_call(it, dotted, args, kw):
             out.exact = all(getattr(x, "exact", False) for x in parts)
             return out
         if parts and all(isinstance(x, Vec) for x in parts) and kw.get("axis", 0) == 0:
-            return Vec([v for x in parts for v in x.v])
+            r = Vec([v for x in parts for v in x.v], aligned=("any" if any(x.aligned or x.fresh for x in parts) else False))
+            r.exact = all(x.exact for x in parts)
+            if all(x.labels is not None for x in parts) and kw.get("ignore_index") is not True:
+                r.labels = [l for x in parts for l in x.labels]          # the parts' labels, concatenated (may repeat)
+            return r
         return Opaque("mixed:concat")
     if name in ("collections.OrderedDict", "OrderedDict", "collections.OrderedDict.fromkeys"):
         return dict(*[(x if isinstance(x, dict) else list(it.iterate(x))) for x in args], **kw)
